@@ -87,12 +87,45 @@ pub fn compress(c: u8, data: &[u8], p: Params) -> Vec<u8> {
     }
 }
 
+/// Whatever a streaming reader would see before the stream breaks: the decoded prefix (bounded by
+/// `limit`) and whether the budget was exceeded. Used by the budget walker, which must be at least
+/// as generous as a reader that consumes varints while the codec is still delivering data.
+pub fn decompress_lenient(c: u8, data: &[u8], limit: usize) -> (Vec<u8>, bool) {
+    fn drain(mut r: impl Read, limit: usize) -> (Vec<u8>, bool) {
+        let mut out = Vec::new();
+        let mut buf = vec![0u8; 16384];
+        loop {
+            match r.read(&mut buf) {
+                Ok(0) => return (out, false),
+                Ok(n) => {
+                    out.extend_from_slice(&buf[..n]);
+                    if out.len() > limit {
+                        return (out, true);
+                    }
+                }
+                Err(e) if e.kind() == std::io::ErrorKind::Interrupted => {}
+                Err(_) => return (out, false),
+            }
+        }
+    }
+    match c {
+        NONE => (data[..data.len().min(limit)].to_vec(), data.len() > limit),
+        GZIP => drain(flate2::read::GzDecoder::new(data), limit),
+        BROTLI => drain(brotli::Decompressor::new(data, 4096), limit),
+        ZSTD => match zstd::stream::read::Decoder::new(data) {
+            Ok(d) => drain(d, limit),
+            Err(_) => (Vec::new(), false),
+        },
+        _ => (Vec::new(), false),
+    }
+}
+
 /// Decompress the whole of `data`; `limit` bounds the output (budget rule). Returns the bytes and
 /// whether the decoder consumed all input.
 pub fn decompress(c: u8, data: &[u8], limit: usize) -> Result<(Vec<u8>, bool), String> {
     fn drain(mut r: impl Read, limit: usize) -> Result<Vec<u8>, String> {
         let mut out = Vec::new();
-        let mut buf = [0u8; 16384];
+        let mut buf = vec![0u8; 16384];
         loop {
             match r.read(&mut buf) {
                 Ok(0) => return Ok(out),
